@@ -1,6 +1,81 @@
 import TantivyModel.Driver.Proto
+import TantivyModel.Model.Lock
+/-!
+Line protocol of the writer-lock model (C18).
+
+`run <ev>,<ev>,…`  events from the initial state; response `<out>,<out>,…|<held>|<id>:<killed>:<owns>;…`
+  small steps : `a<t>` acquire · `n<t>:<argsOk>:<newOk>` construct · `t<w>` rollbackTake ·
+                `f<w>:<newOk>` rollbackNew · `d<w>` drop · `m<w>` wait_merging_threads · `k<w>` kill
+  whole calls : `c<t>:<argsOk>:<newOk>` Index::writer… · `r<w>:<newOk>` rollback
+`argsok <budgetPerThread> <numThreads>`  the argument guards of IndexWriter::new → `0`/`1`
+-/
 namespace TantivyModel.Driver.C18
-/-- stub: the model for C18 is not built yet -/
+open TantivyModel TantivyModel.Proto TantivyModel.Lock
+
+inductive DEv where
+  | small (e : Ev)
+  | create (t : Nat) (a n : Bool)
+  | rollback (w : Nat) (n : Bool)
+
+def dstep (s : St) : DEv → St × Out
+  | .small e => step s e
+  | .create t a n => create s t a n
+  | .rollback w n => rollback s w n
+
+def showOut : Out → String
+  | .ok w => "ok" ++ toString w
+  | .lockBusy => "busy"
+  | .invalidArg => "invalid"
+  | .ioErr => "io"
+  | .done => "done"
+  | .panic => "panic"
+  | .stuck => "stuck"
+
+def bit? (s : String) : Option Bool :=
+  if s == "1" then some true else if s == "0" then some false else none
+
+def parseEv (tok : String) : Option DEv :=
+  match tok.toList with
+  | [] => none
+  | c :: rest =>
+    let parts := (String.ofList rest).splitOn ":"
+    match c, parts with
+    | 'a', [t] => t.toNat?.map (fun t => .small (.acquire t))
+    | 'n', [t, a, n] => do pure (.small (.construct (← t.toNat?) (← bit? a) (← bit? n)))
+    | 't', [w] => w.toNat?.map (fun w => .small (.rollbackTake w))
+    | 'f', [w, n] => do pure (.small (.rollbackNew (← w.toNat?) (← bit? n)))
+    | 'd', [w] => w.toNat?.map (fun w => .small (.drop w))
+    | 'm', [w] => w.toNat?.map (fun w => .small (.wait w))
+    | 'k', [w] => w.toNat?.map (fun w => .small (.kill w))
+    | 'c', [t, a, n] => do pure (.create (← t.toNat?) (← bit? a) (← bit? n))
+    | 'r', [w, n] => do pure (.rollback (← w.toNat?) (← bit? n))
+    | _, _ => none
+
+def runD (s : St) : List DEv → St × List Out
+  | [] => (s, [])
+  | e :: es =>
+    let r := dstep s e
+    let rest := runD r.1 es
+    (rest.1, r.2 :: rest.2)
+
+def showState (s : St) : String :=
+  showBool s.held ++ "|" ++
+  (if s.writers.isEmpty then "-" else
+    ";".intercalate (s.writers.map (fun x =>
+      toString x.id ++ ":" ++ showBool x.killed ++ ":" ++ showBool (s.guards.contains (.writer x.id)))))
+
 def handle : List String → String
+  | ["run", evs] =>
+    let toks := if evs == "-" then [] else evs.splitOn ","
+    match toks.mapM parseEv with
+    | some es =>
+      let r := runD init es
+      (if r.2.isEmpty then "-" else ",".intercalate (r.2.map showOut)) ++ "|" ++ showState r.1
+    | none => "bad-op"
+  | ["argsok", b, n] =>
+    match b.toNat?, n.toNat? with
+    | some b, some n => showBool (argsOk b n)
+    | _, _ => "bad-op"
   | _ => "bad-op"
+
 end TantivyModel.Driver.C18
